@@ -7,9 +7,8 @@ Import ListNotations.
 
 (* ErrorOnFSErrors = false: whatever fails -- any number of faults at any operation site of any tree: root stat,
    open-dir, k-th directory read, open file, stat of an open file -- the scan completes (no abort, no panic),
-   a failing lazy Stat under MaxFileSize included (the file is skipped) -- provided the sites singled out by
-   tree_quiet are fault-free (an unreadable .gitignore, see the refutation below; a Stat fault on a file when some
-   FileRequired consults api.Stat()). *)
+   a failing lazy Stat under MaxFileSize (the file is skipped) and an unreadable .gitignore (logged, no patterns)
+   included.  tree_quiet only excludes a Stat fault on a file when some FileRequired consults api.Stat(). *)
 Theorem nonfatal_never_fails : forall c t,
   c_fatal c = false -> no_limits c = true -> no_xpanic c -> c_paths c = [] -> tree_quiet c t = true ->
   exists st, fs_result c t = WOk st Continue.
@@ -17,10 +16,12 @@ Proof. exact nonfatal_never_fails_lemma. Qed.
 Print Assumptions nonfatal_never_fails.
 
 (* ... and the files outside the failing directories / files are extracted exactly as in the fault-free scan:
-   the Extract calls are those of the scan of the fault-erased tree whose path survives *)
+   the Extract calls are those of the scan of the fault-erased tree whose path survives.  (gi_readable: a .gitignore
+   that cannot be read contributes no patterns, so what it would have ignored is extracted; the comparison with
+   the fault-free scan is claimed for readable .gitignore files.) *)
 Theorem faults_contained : forall c t,
   c_fatal c = false -> no_limits c = true -> no_xpanic c -> c_paths c = [] -> tree_quiet c t = true ->
-  wf_tree t = true ->
+  gi_readable c t = true -> wf_tree t = true ->
   fs_calls c t = filter (fun ep => not_lost c t (snd ep)) (fs_calls c (erase_faults t)).
 Proof. exact faults_contained_lemma. Qed.
 Print Assumptions faults_contained.
@@ -68,15 +69,6 @@ Theorem scan_status_derivation : forall c roots r,
 Proof. exact scan_status_lemma. Qed.
 Print Assumptions scan_status_derivation.
 
-(* REFUTED (still, after the fixes): "otherwise no single failure makes the scan fail".  An unreadable .gitignore
-   under UseGitignore is returned from handleFile as an error although filesystem errors are not fatal; the whole
-   walk aborts (no panic any more) and files the fault-free scan extracts are lost. *)
-Theorem unreadable_gitignore_aborts_refuted :
-  exists c t, c_fatal c = false /\ no_limits c = true /\ c_paths c = [] /\ wf_tree t = true /\
-    exists st, fs_result c t = WOk st (Abort AbGi) /\ fs_calls c t = [] /\ fs_calls c (erase_faults t) <> [].
-Proof. exact unreadable_gitignore_refuted_lemma. Qed.
-Print Assumptions unreadable_gitignore_aborts_refuted.
-
 (* non-vacuity: a tree with an unreadable directory and a file that cannot be opened, inside the domain *)
 Definition t_faulty : node :=
   Dc DOT [Df nA [Fc nZ Reg 1 0] true None false; Ff nB Reg 1 0 true false false; Fc nC Reg 1 0].
@@ -87,3 +79,10 @@ Example faulty_example :
   fs_calls base_cfg (erase_faults t_faulty) = [(e0, [nA; nZ]); (e0, [nB]); (e0, [nC])] /\
   traversal_fault base_cfg t_faulty = true.
 Proof. vm_compute. repeat split; reflexivity. Qed.
+
+(* the former refutation witness: an unreadable .gitignore no longer aborts (nor panics); the scan completes *)
+Example unreadable_gitignore_example :
+  tree_quiet c_gi_fault t_gi_fault = true /\ gi_readable c_gi_fault t_gi_fault = false /\
+  (exists st, fs_result c_gi_fault t_gi_fault = WOk st Continue) /\
+  fs_calls c_gi_fault t_gi_fault = [(e0, [nB; nA]); (e0, [nC])].
+Proof. vm_compute. repeat split; try reflexivity. eexists; reflexivity. Qed.
